@@ -523,8 +523,25 @@ def bounded(ctx):
                         "cuda_sync records, user annotations) x instance selections (single step, range) x with/without zero-weight launch edges")
 
 
+def call_stack_order_vcs() -> List[core.VC]:
+    """The graph construction walks the call stack of hta/common/call_stack.py; "forward in time" rests on that stack being the
+    nesting tree, i.e. on the order obligations of its comparator and on its loop / endpoint construction (the contracts of C03,
+    re-generated here from the current source so that a change to that builder is seen by this property's check as well).
+    Transitivity is left to C03: it fails only in the recorded class C03-D4, which C08's inputs exclude."""
+    from contracts import C03
+
+    out: List[core.VC] = []
+    for v in (C03.comparator_vcs("compare_events", C03._less_old_factory, False) + C03.loop_body_vcs_old() + C03.array_vcs_old()):
+        if v.name.endswith(".trans"):
+            continue
+        v.name = v.name.replace("C03.", f"{PROP}.call_stack_order.", 1)
+        out.append(v)
+    return out
+
+
 def units(ctx):
-    return [core.Unit(f"{PROP}.add_edge_helper", add_edge_helper_vcs, [CPA + ".CPGraph._add_edge_helper"]),
+    return [core.Unit(f"{PROP}.call_stack_order", call_stack_order_vcs, ["hta.common.call_stack.compare_events", "hta.common.call_stack.CallStackGraph._construct_call_stack_graph"]),
+            core.Unit(f"{PROP}.add_edge_helper", add_edge_helper_vcs, [CPA + ".CPGraph._add_edge_helper"]),
             core.Unit(f"{PROP}.create_event_nodes", create_nodes_vcs, [CPA + ".CPGraph._create_event_nodes"]),
             core.Unit(f"{PROP}.call_stack_callbacks", dfs_callbacks_vcs, [CPA + ".CPGraph._construct_graph_from_call_stack"]),
             core.Unit(f"{PROP}.kernel_sites", kernel_sites_vcs, [CPA + ".CPGraph._construct_graph_from_kernels"]),
